@@ -173,12 +173,15 @@ const (
 // a swap of two stored fields shows.
 var Menu = [][]Spec{
 	0: {},
-	1: { // both tables
+	1: { // both tables (stake moves carry two keys)
 		{Kind: KReward, Role: "Validator", A: 0, K: 0, Amount: "1", Coin: 0},
 		{Kind: KReward, Role: "Delegator", A: 1, K: 0, Amount: Big40, Coin: MaxU32},
 		{Kind: KSlash, A: 0, K: 1, Amount: Big40, Coin: 1},
 		{Kind: KKick, A: 1, K: 0, Amount: "0", Coin: MaxU32},
 		{Kind: KUnbond, A: 1, K: 1, Amount: Big40, Coin: 1},
+		{Kind: KMove, A: 0, K: 0, K2: 1, Amount: "7", Coin: 1},
+		{Kind: KMove, A: 2, K: 2, K2: 0, Amount: "0", Coin: 0},
+		{Kind: KMove, A: 3, K: 1, K2: 1, Amount: Big40, Coin: MaxU32},
 	},
 	2: { // key table only, with an identical pair
 		{Kind: KJail, K: 0, N: 12345678901234},
@@ -194,30 +197,23 @@ var Menu = [][]Spec{
 		{Kind: KUnbond, A: 2, K: -1, Amount: "3", Coin: 2},
 		{Kind: KUnbond, A: 2, K: -1, Amount: "3", Coin: 2},
 	},
-	4: { // two keys per event
-		{Kind: KMove, A: 0, K: 0, K2: 1, Amount: Big40, Coin: 1},
-		{Kind: KMove, A: 2, K: 2, K2: 0, Amount: "0", Coin: 0},
-		{Kind: KMove, A: 3, K: 1, K2: 1, Amount: "7", Coin: MaxU32},
-	},
-	5: { // stored inline, no table
+	4: { // stored inline, no table
 		{Kind: KNetwork, S: "v2.6.0"},
 		{Kind: KCommissions, Coin: 1, S: "9"},
 		{Kind: KBlockReward, Amount: Big40, S: "1"},
 		{Kind: KRemove, K: 1},
 		{Kind: KRemove, K: 3},
 	},
-	6: { // mix on the late slots, with an identical pair
+	5: { // mix on the late slots, with an identical pair
 		{Kind: KUnbond, A: 4, K: 3, Amount: "1", Coin: MaxU32},
 		{Kind: KReward, Role: "DAO", A: 5, K: 4, Amount: Big40, Coin: 0},
 		{Kind: KNetwork, S: "v3"},
 		{Kind: KSlash, A: 4, K: 4, Amount: "0", Coin: 2},
 		{Kind: KJail, K: 3, N: 1 << 40},
 		{Kind: KUnlock, A: 5, Amount: "1", Coin: 0},
-		{Kind: KKick, A: 3, K: 3, Amount: Big40, Coin: 1},
 		{Kind: KMove, A: 4, K: 4, K2: 3, Amount: "1", Coin: MaxU32},
 		{Kind: KOrder, A: 5, N: 3, Coin: 2, Amount: "1"},
 		{Kind: KRemove, K: 4},
-		{Kind: KBlockReward, Amount: "0", S: Big40},
 		{Kind: KUnbond, A: 5, K: -1, Amount: "0", Coin: 1},
 		{Kind: KReward, Role: "Developers", A: 1, K: 1, Amount: "1000000000000000000", Coin: 1},
 		{Kind: KReward, Role: "Developers", A: 1, K: 1, Amount: "1000000000000000000", Coin: 1},
@@ -225,7 +221,7 @@ var Menu = [][]Spec{
 }
 
 // MenuNames label the menu batches in samples and details.
-var MenuNames = []string{"empty", "stake(both-tables)", "jail(keys-only)", "unlock/order/unbond-nil(addresses-only)", "move(two-keys)", "inline(no-table)", "mixed-late-slots"}
+var MenuNames = []string{"empty", "stake(both-tables)", "jail(keys-only)", "unlock/order/unbond-nil(addresses-only)", "inline(no-table)", "mixed-late-slots"}
 
 func show(v reflect.Value) string {
 	switch x := v.Interface().(type) {
